@@ -39,7 +39,10 @@ import (
 	"testing"
 	"time"
 
+	"github.com/gopcua/opcua/id"
 	"github.com/gopcua/opcua/ua"
+	"github.com/gopcua/opcua/uapolicy"
+	"github.com/gopcua/opcua/uasc"
 	"pgregory.net/rapid"
 
 	"verif/pkg/chanpair"
@@ -50,7 +53,7 @@ import (
 
 func TestMain(m *testing.M) { ev.Main(m) }
 
-var rec = ev.For("C09", "gopcua client<->server channel pair per case (5 secured policies x Sign/SignAndEncrypt x receiving kind server/client), 1-3 sender messages (single/multi chunk) captured at a MITM tap, ONE mutation (bit flip by region, multi-byte overwrite, truncation to L in [8,len) with/without MessageSize fix-up, extension by 1-64 bytes with/without fix-up, ChunkType/SecureChannelID/TokenID/MessageType rewrite, frame replaced by the corresponding chunk of a second channel with other keys) applied to one frame; plus all truncation lengths of one ~200-byte chunk per policy/mode/kind; non-trivial = the first non-genuine frame, as the receiver frames the stream, is complete and passes the UACP size checks (reaches the secure channel); distinct by hash of the case")
+var rec = ev.For("C09", "gopcua client<->server channel pair per case (5 secured policies x Sign/SignAndEncrypt x receiving kind server/client), 1-3 sender messages (single/multi chunk) captured at a MITM tap, ONE mutation (bit flip by region, multi-byte overwrite, truncation to L in [8,len) with/without MessageSize fix-up, extension by 1-64 bytes with/without fix-up, ChunkType/SecureChannelID/TokenID/MessageType rewrite, frame replaced by the corresponding chunk of a second channel with other keys, frame replaced by an unsigned plain OpenSecureChannel chunk naming policy None or the channel's policy) applied to one frame; plus all truncation lengths of one ~200-byte chunk per policy/mode/kind; non-trivial = the first non-genuine frame, as the receiver frames the stream, is complete and passes the UACP size checks (reaches the secure channel); distinct by hash of the case")
 
 // ---------------------------------------------------------------------------
 // case
@@ -495,10 +498,85 @@ func mutate(c Case, frames [][]byte, msgOf []int, donor [][]byte) ([][]byte, mut
 		if len(f) == n {
 			info.Fine += ":same-length"
 		}
+	case "forgeopn":
+		// an OpenSecureChannel chunk made without any key of the channel
+		// (unsigned, unencrypted) for this channel id
+		if g, fine := forgeOPN(c, le32(8), mu); g != nil {
+			f = g
+			info.Fine = fine
+		}
 	}
 	info.NewLen = len(f)
 	out[k] = f
 	return out, info
+}
+
+// forgeOPN builds a plain OpenSecureChannel chunk (request towards a server
+// channel, response towards a client channel). mu.Off selects the security
+// header: policy None; the channel's policy without certificate; the channel's
+// policy with the genuine sender's (public) certificate and receiver thumbprint.
+// mu.Bit selects Issue/Renew, mu.Val the sequence number / request id.
+func forgeOPN(c Case, channelID uint32, mu Mut) ([]byte, string) {
+	pol := mitm.PolicyByShort(c.Policy)
+	ck, sk := mitm.Keys(pol)
+	sender, receiver := ck, sk
+	if c.Kind == "client" {
+		sender, receiver = sk, ck
+	}
+	var hdr *uasc.AsymmetricSecurityHeader
+	var fine string
+	switch mod(mu.Off, 4) {
+	case 0, 1:
+		hdr = uasc.NewAsymmetricSecurityHeader(ua.SecurityPolicyURINone, nil, nil)
+		fine = "forgeopn:policy-None"
+	case 2:
+		hdr = uasc.NewAsymmetricSecurityHeader(pol, nil, nil)
+		fine = "forgeopn:channel-policy,no-certificate"
+	default:
+		hdr = uasc.NewAsymmetricSecurityHeader(pol, sender.Cert, uapolicy.Thumbprint(receiver.Cert))
+		fine = "forgeopn:channel-policy,genuine-public-certificate"
+	}
+	seq := []uint32{1, 2, 3, 4, 5000, mu.Val}[mod(int(mu.Val), 6)]
+	rt := ua.SecurityTokenRequestTypeRenew
+	if mu.Bit%2 == 1 {
+		rt = ua.SecurityTokenRequestTypeIssue
+		fine += ",issue"
+	} else {
+		fine += ",renew"
+	}
+	var typeID *ua.ExpandedNodeID
+	var svc interface{}
+	if c.Kind == "server" {
+		typeID = ua.NewFourByteExpandedNodeID(0, id.OpenSecureChannelRequest_Encoding_DefaultBinary)
+		svc = &ua.OpenSecureChannelRequest{
+			RequestHeader:     &ua.RequestHeader{AuthenticationToken: ua.NewTwoByteNodeID(0), Timestamp: time.Unix(1700000000, 0), AdditionalHeader: ua.NewExtensionObject(nil)},
+			RequestType:       rt,
+			SecurityMode:      mitm.Mode(c.Mode),
+			ClientNonce:       fillBytes(mu.Val, 32*(mu.Bit/2%2)),
+			RequestedLifetime: 3600000,
+		}
+	} else {
+		typeID = ua.NewFourByteExpandedNodeID(0, id.OpenSecureChannelResponse_Encoding_DefaultBinary)
+		svc = &ua.OpenSecureChannelResponse{
+			ResponseHeader: &ua.ResponseHeader{Timestamp: time.Unix(1700000000, 0), RequestHandle: seq, ServiceDiagnostics: &ua.DiagnosticInfo{}, StringTable: []string{}, AdditionalHeader: ua.NewExtensionObject(nil)},
+			SecurityToken:  &ua.ChannelSecurityToken{ChannelID: channelID, TokenID: 1 + mu.Val%7, CreatedAt: time.Unix(1700000000, 0), RevisedLifetime: 3600000},
+			ServerNonce:    fillBytes(mu.Val, 32*(mu.Bit/2%2)),
+		}
+	}
+	m := &uasc.Message{
+		MessageHeader: &uasc.MessageHeader{
+			Header:                   uasc.NewHeader(uasc.MessageTypeOpenSecureChannel, uasc.ChunkTypeFinal, channelID),
+			AsymmetricSecurityHeader: hdr,
+			SequenceHeader:           uasc.NewSequenceHeader(seq, seq),
+		},
+		TypeID:  typeID,
+		Service: svc,
+	}
+	chunks, err := m.EncodeChunks(1 << 20)
+	if err != nil || len(chunks) != 1 {
+		return nil, ""
+	}
+	return chunks[0], fine
 }
 
 func hasPrefix(out, orig []byte) bool {
@@ -800,6 +878,7 @@ var mutKinds = []string{
 	"extend", "extend", "extend",
 	"chunktype", "channelid", "tokenid", "msgtype",
 	"forge", "forge",
+	"forgeopn", "forgeopn",
 }
 
 func genCase(t *rapid.T, kind string) Case {
@@ -845,6 +924,10 @@ func genCase(t *rapid.T, kind string) Case {
 		m.Off = rapid.IntRange(0, 5).Draw(t, "new")
 	case "channelid", "tokenid":
 		m.Off = rapid.IntRange(0, 3).Draw(t, "new")
+		m.Val = rapid.Uint32().Draw(t, "val")
+	case "forgeopn":
+		m.Off = rapid.IntRange(0, 3).Draw(t, "header")
+		m.Bit = rapid.IntRange(0, 3).Draw(t, "issue/nonce")
 		m.Val = rapid.Uint32().Draw(t, "val")
 	}
 	return c
